@@ -278,3 +278,32 @@ def bounded_special(pid, key, items, repo):
 
 
 SPECIAL.insert(0, bounded_special)
+
+
+def buffer_special(pid, key, items, repo):
+    """Failed buffer-tier obligations: replay by the buffered-history sweep of the class concerned."""
+    names = [n for n, _ in items]
+    if not any(x in names[0] for x in ("_flush", "_buffer", "buffered.", "buffer_backend", "set_buffer_capacity")):
+        return None
+    m = re.search(r"/(\w*Buffered\w+)\.", names[0])
+    cname = m.group(1) if m else "BufferedJSONDict"
+    env = dict(os.environ, PYTHONPATH=repo)
+    tried = []
+    for cn in (cname, "BufferedJSONDict", "MemoryBufferedJSONDict", "MemoryBufferedJSONList"):
+        if cn in tried:
+            continue
+        tried.append(cn)
+        try:
+            r = subprocess.run([VENV_PY, os.path.join(HERE, "buffer_replay.py"), "search", cn, "12000"], env=env,
+                               capture_output=True, text=True, timeout=900)
+            res = json.loads(r.stdout.strip().splitlines()[-1])
+        except Exception as e:      # noqa: BLE001
+            return {"search": {"error": f"{type(e).__name__}: {e}"}}
+        if res.get("found"):
+            return {"search": {k: v for k, v in res.items() if k != "scenario"}, "replayer": "replay/buffer_replay.py",
+                    "scenario": res["scenario"], "message": res["message"], "confirmed_on_real_code": True,
+                    "script": "replay/buffer_replay.py", "script_args": ["run", "{self}"]}
+    return {"search": {"found": False, "classes": tried}, "replayer": "replay/buffer_replay.py"}
+
+
+SPECIAL.insert(1, buffer_special)
